@@ -39,18 +39,6 @@ package http2
 //@ -- are not verified here: all that is assumed is that entering one is the event, and (from the module-wide
 //@ -- `writers` scan) that they cannot touch the captured fingerprint data.
 //@ ghost var procLog seq[int]
-//@ func (*serverConn).processPriority :: sc, f -> err
-//@   trusted
-//@   assigns unrestricted, procLog
-//@   ensures procLog == old(procLog) ++ seq[int]{2}
-//@ func (*serverConn).processSettings :: sc, f -> err
-//@   trusted
-//@   assigns unrestricted, procLog
-//@   ensures procLog == old(procLog) ++ seq[int]{4}
-//@ func (*serverConn).processGoAway :: sc, f -> err
-//@   trusted
-//@   assigns unrestricted, procLog
-//@   ensures procLog == old(procLog) ++ seq[int]{7}
 
 //@ -- what is captured, as values
 //@ pure func capSettings(p seq[byte], n int) seq[metadata.Setting] = ite(n <= 0, seq[metadata.Setting]{}, capSettings(p, n-1) ++ seq[metadata.Setting]{mk(metadata.Setting, settingID(p, n-1), settingVal(p, n-1))})
